@@ -5,6 +5,7 @@ AllreduceTensorBucket of kfac/distributed.py.  Property theorems only; helpers i
 -/
 import KfacVerif.Lemmas.Bucket
 import KfacVerif.Lemmas.BucketLink
+import KfacVerif.Lemmas.CommValL
 
 namespace KV.C08
 open KV KV.Comm
@@ -153,5 +154,61 @@ theorem reduce_sim (c : Cfg) (s : St) (l : Nat) (isA : Bool) (hb : c.bucketed = 
 
 
 end PrecondLink
+
+/-! ## values through the bucketed all-reduce (M-CommVal)
+
+Model: KV.CommV (Model/CommVal.lean) = the capacity/dtype rule of `allreduce_bucketed`, flatten, one
+elementwise all-reduce per bucket, unflatten with the member's own sizes.  Tied to the code on every run
+by the value stream of the C08 check (every member's result for every tensor compared exactly). -/
+section Values
+open KV.CommV
+
+/-- **bucketed ≡ per-tensor, at the level of values**: whatever the capacity, the element size, the
+    dtypes and the sizes of the tensors — when all members of the group submit the same requests
+    (SPMD: ids, dtypes and sizes agree, payloads differ) every member gets back, for each of its tensors
+    and in submission order, exactly the elementwise sum over the members of that tensor: the result of
+    the per-tensor all-reduce -/
+theorem bucketed_equals_per_tensor (cap esize : Nat) (members : List (List Sub)) (m : Nat)
+    (hm : m < members.length)
+    (hs : ∀ a ∈ members, ∀ b ∈ members, sameShape a b = true) :
+    results cap esize members m = perTensor members m := by
+  exact CommVL.results_eq_perTensor cap esize members m hm hs
+
+/-- **the value model cuts buckets exactly where the communicator model (M-Comm) does**: the events
+    M-Comm emits for a group when the same requests are submitted and the buckets are flushed are, one
+    by one, the buckets of `split` (same request ids in the same order, same total element count) -/
+theorem split_matches_comm (cap esize : Nat) (g : Comm.Key) (hg : g.length ≠ 1) (subs : List Sub) :
+    (Comm.run { cap := cap, buckets := [] }
+        (subs.map (fun s => Comm.Op.reduceB g s.tid [s.data.length] esize s.dtype false) ++ [Comm.Op.flush])).2
+      = (split cap esize subs []).map fun b =>
+          Comm.Event.allreduce g (b.map (·.tid)) ((b.map fun s => s.data.length).sum) := by
+  exact CommVL.run_split cap esize g hg subs [] [] (Or.inr ⟨rfl, rfl⟩)
+
+/-- every submitted tensor is in exactly one bucket, in submission order -/
+theorem split_flatten (cap esize : Nat) (subs : List Sub) :
+    (split cap esize subs []).flatten = subs := by
+  simpa using CommVL.split_flatten_gen cap esize subs []
+
+/-- **capacity**: a bucket that holds more than one tensor fits the capacity (a tensor larger than
+    the capacity travels alone) -/
+theorem split_capacity (cap esize : Nat) (subs : List Sub) (b : List Sub) (hb : b ∈ split cap esize subs [])
+    (h2 : 2 ≤ b.length) : bucketBytes esize b ≤ cap := by
+  exact CommVL.split_capacity_gen cap esize subs [] (by simp) b hb h2
+
+/-- a bucket never mixes dtypes -/
+theorem split_dtype (cap esize : Nat) (subs : List Sub) (b : List Sub) (hb : b ∈ split cap esize subs [])
+    (x y : Sub) (hx : x ∈ b) (hy : y ∈ b) : x.dtype = y.dtype := by
+  exact CommVL.split_dtype_gen cap esize subs [] (by simp) b hb x hx y hy
+
+/-- non-vacuity: three members, capacity 16 bytes, a dtype switch, a tensor larger than the capacity
+    and an empty tensor -/
+example :
+    let mk (r : Int) : List Sub := [⟨0, 0, [1 * r, 2 * r]⟩, ⟨1, 0, [3 * r]⟩, ⟨2, 1, [5 * r]⟩, ⟨3, 1, [1, 2, 3, 4, r]⟩, ⟨4, 1, []⟩]
+    results 16 4 [mk 1, mk 10, mk 100] 1 = perTensor [mk 1, mk 10, mk 100] 1 ∧
+    (split 16 4 (mk 1) []).map (fun b => b.map (·.tid)) = [[0, 1], [2], [3], [4]] := by
+  decide +kernel
+
+
+end Values
 
 end KV.C08
